@@ -284,4 +284,60 @@ theorem skel_ticket_loadSession_ok : skel_ticket_loadSession = ([
   "return nil, err",
   "return sessionState, nil"] : List String) := rfl
 
+theorem skel_WatchFileForUpdates_ok : skel_WatchFileForUpdates = ([
+  "filepath.Clean",
+  "fsnotify.NewWatcher",
+  "if err != nil",
+  "return fmt.Errorf(\"failed to create watcher for '%s': %s\", filename",
+  "fmt.Errorf",
+  "func{",
+  "defer",
+  "for",
+  "return",
+  "filterEvent",
+  "logger.Errorf",
+  "if err != nil",
+  "watcher.Add",
+  "return fmt.Errorf(\"failed to add '%s' to watcher: %v\", filename, er",
+  "fmt.Errorf",
+  "return nil"] : List String) := rfl
+
+theorem skel_filterEvent_ok : skel_filterEvent = ([
+  "filepath.Clean",
+  "case event.Op&fsnotify.Remove != 0",
+  "WaitForReplacement",
+  "action",
+  "case event.Op&(fsnotify.Create|fsnotify.Write) != 0",
+  "action"] : List String) := rfl
+
+theorem skel_WaitForReplacement_ok : skel_WaitForReplacement = ([
+  "if op&fsnotify.Chmod != 0",
+  "time.Sleep",
+  "for",
+  "if err == nil",
+  "os.Stat",
+  "if err == nil",
+  "watcher.Add",
+  "return",
+  "time.Sleep"] : List String) := rfl
+
+theorem skel_validateToken_ok : skel_validateToken = ([
+  "if accessToken == \"\" || p.Data().ValidateURL == nil || p.Data().ValidateURL.String() == \"\"",
+  "return false",
+  "if len(header) == 0",
+  "if hasQueryParams(endpoint)",
+  "params.Encode",
+  "params.Encode",
+  "requests.New",
+  "if result.Error() != nil",
+  "result.Error",
+  "logger.Errorf",
+  "logger.Errorf",
+  "result.Error",
+  "return false",
+  "if result.StatusCode() == 200",
+  "return true",
+  "logger.Errorf",
+  "return false"] : List String) := rfl
+
 end O2P.Expect.C01
